@@ -35,6 +35,10 @@ type DKGCase struct {
 	Concurrent bool    `json:"concurrent,omitempty"`
 	Routing    [][]int `json:"routing"` // per participant: ordered duties (0 = A, 1 = B)
 	Restart    int     `json:"restart"` // -1 or the participant restarted (SIGKILL) between generation and use
+	// Lifecycle: the daemons run with a generation timeout of 2 s, and before anything else the harness, holding a
+	// certificate of the authority in the name of instance 2, walks instance 1 through: prepare, prepare again
+	// (refused), a wait past the timeout, abort (refused: nothing in progress), prepare (accepted), abort (accepted).
+	Lifecycle bool `json:"lifecycle,omitempty"`
 }
 
 var dkgPropertyOf = map[string]string{
@@ -44,6 +48,7 @@ var dkgPropertyOf = map[string]string{
 	"account-not-usable":            "C12",
 	"both-duties-reached-threshold": "C14",
 	"rogue-dkg-message-accepted":    "C16",
+	"generation-lifecycle-wrong":    "C17",
 	"dkg-daemon-died":               "C20",
 }
 
@@ -70,6 +75,9 @@ func runDKG(c *DKGCase, only string) (*dkgOutcome, *vkit.Violation, error) {
 	report := func(kind string, format string, args ...any) {
 		if viol != nil {
 			return
+		}
+		if _, ok := dkgPropertyOf[kind]; !ok {
+			panic("violation kind without a property: " + kind)
 		}
 		if only != "" && only != "ALL" && dkgPropertyOf[kind] != only {
 			return
@@ -100,7 +108,11 @@ func runDKG(c *DKGCase, only string) (*dkgOutcome, *vkit.Violation, error) {
 		}
 		var startErr error
 		for i := range ds {
-			d, err := NewDaemon(&Config{Permissions: perms, Cluster: true, Instance: i, Peers: peers, Port: ports[i]})
+			gt := ""
+			if c.Lifecycle {
+				gt = "2s"
+			}
+			d, err := NewDaemon(&Config{Permissions: perms, Cluster: true, Instance: i, Peers: peers, Port: ports[i], GenerationTimeout: gt})
 			if err != nil {
 				startErr = fmt.Errorf("instance %d: %w", i, err)
 
@@ -131,6 +143,33 @@ func runDKG(c *DKGCase, only string) (*dkgOutcome, *vkit.Violation, error) {
 		}
 
 		return true
+	}
+	if c.Lifecycle {
+		peer := Cred{CN: InstanceName(1), Issuer: "ca"} // a certificate of the authority in the name of peer 2
+		lc := WD + "/lifecycle"
+		eps := []*pb.Endpoint{{Id: 1, Name: InstanceName(0), Port: 1}, {Id: 2, Name: InstanceName(1), Port: 2}}
+		prep := func() error {
+			return ds[0].Invoke(peer, "/v1.DKG/Prepare", &pb.PrepareRequest{Account: lc, Threshold: 2, Participants: eps, Passphrase: []byte("x")}, &emptypb.Empty{})
+		}
+		abort := func() error {
+			return ds[0].Invoke(peer, "/v1.DKG/Abort", &pb.AbortRequest{Account: lc}, &emptypb.Empty{})
+		}
+		step := func(what string, err error, wantOK bool) {
+			o.trace = append(o.trace, fmt.Sprintf("lifecycle %s -> err=%v", what, err != nil))
+			if (err == nil) != wantOK {
+				report("generation-lifecycle-wrong", "instance 1, generation timeout 2 s, messages from peer 2: %s answered err=%v (%v), expected accepted=%v", what, err != nil, err, wantOK)
+			}
+		}
+		step("prepare", prep(), true)
+		step("second prepare while the first is active", prep(), false)
+		time.Sleep(2600 * time.Millisecond)
+		step("abort after the timeout", abort(), false)
+		step("prepare after the timeout", prep(), true)
+		step("abort of the active generation", abort(), true)
+		step("abort again", abort(), false)
+		if !alive("after the lifecycle messages") || viol != nil {
+			return o, viol, nil
+		}
 	}
 	name := "dkgacc"
 	account := WD + "/" + name
@@ -403,6 +442,7 @@ func TestE2EDKG(t *testing.T) {
 		for i := 0; i < int(c.N); i++ {
 			c.Routing = append(c.Routing, rapid.SampledFrom([][]int{{0, 1}, {1, 0}, {i % 2, 1 - i%2}, {i % 2}, {0, 1, 0}}).Draw(rt, "route"))
 		}
+		c.Lifecycle = rapid.IntRange(0, 3).Draw(rt, "lifecycle") == 0
 		if rapid.IntRange(0, 2).Draw(rt, "restart") == 0 {
 			c.Restart = rapid.IntRange(0, int(c.N)-1).Draw(rt, "restart_who")
 		}
@@ -431,6 +471,9 @@ func TestE2EDKG(t *testing.T) {
 		}
 		if c.Rogue != "" {
 			vkit.S.Class("e2e:rogue-dkg-message-from-a-client")
+		}
+		if c.Lifecycle {
+			vkit.S.Class("e2e:generation-lifecycle-with-a-2s-timeout")
 		}
 		vkit.S.Sample(map[string]any{"case": c, "trace": o.trace}, o.success && c.N >= 3)
 		vkit.Report(rt, only, "TestE2EDKG", c, v)
